@@ -339,7 +339,8 @@ def child_behaviour(arg):
             code.pop('SERVICE_SECURE')
         else:
             # (in code the natural spelling is the boolean itself)
-            code['SERVICE_SECURE'] = '' if empty else [False, 'false', 'no'][variant]
+            # ... or a number
+            code['SERVICE_SECURE'] = '' if empty else (0 if arg.get('variant5', 0) == 4 else [False, 'false', 0][variant])
     elif setting == 'AUTH':
         give('SERVICE_AUTH_PROVIDER', 'deep.api.auth.BasicAuthProvider')
         for k, v in (('SERVICE_USERNAME', 'user%d' % variant), ('SERVICE_PASSWORD', 'pw-%d' % variant)):
